@@ -1,13 +1,16 @@
 /-
 C10 — RESP codec: decode and encode are inverse (stream level).
 
-`decode` is the decoder of codec.go written over an abstract byte source; here it is
-instantiated with the specification source `streamSrc` (a plain byte list and the
-reader buffer size).  The tie of `decode`/`encode` and of the chunked `Reader` source
-to the Go code is the differential run (DESIGN.md §4 C10).
+`decode` is the decoder of codec.go written over an abstract byte source; it is instantiated
+with the specification source `streamSrc` (a plain byte list and the reader buffer size) for
+the round-trip theorems, and with `Reader.src` (bufio.go's buffered reader over a connection
+that delivers arbitrary non-empty chunks) for `chunking_independent`: the two agree, for every
+chunking.  The tie of `decode`/`encode` and of the `Reader` model to the Go code is the
+differential run (DESIGN.md §4 C10).
 -/
 import SamVerif.Spec.Resp
 import SamVerif.Proofs.Resp
+import SamVerif.Proofs.RespRefine
 import SamVerif.Gen.Codec
 namespace SamVerif.Props.C10
 open SamVerif.Resp SamVerif.Proofs.Resp
@@ -223,6 +226,58 @@ theorem inline_eq_array (sz : Nat) (hsz : 32 ≤ sz) (t : Bytes) (ts : List Byte
   simp only [notTypeByte, Bool.and_eq_true, bne_iff_ne, ne_eq] at hnt
   simp [decode, hnt.1.1.1.1, hnt.1.1.1.2, hnt.1.1.2, hnt.1.2, hnt.2, decodeInline, htext, hsplit]
 
+/-! ### independence of the chunking -/
+
+/-- **Chunking does not matter.** For every way the connection cuts the byte stream into
+non-empty reads, every reader buffer size ≥ 1 and every nesting budget: decoding from the
+buffered reader gives exactly what decoding from the plain byte stream gives — the same value
+with the same bytes left (those in the reader's window followed by the chunks not read yet), or
+a failure in both. -/
+theorem chunking_independent (size : Nat) (hsize : 0 < size) (chunks : List Bytes)
+    (hne : ∀ c ∈ chunks, c ≠ []) (fuel : Nat) :
+    match decode Reader.src fuel ⟨size, [], chunks, false⟩, decode streamSrc fuel ⟨size, chunks.flatten⟩ with
+    | some (v, r), some (w, s) => v = w ∧ s.data = r.win ++ r.chunks.flatten
+    | none, none => True
+    | _, _ => False := by
+  have hrel : Rel ⟨size, [], chunks, false⟩ ⟨size, chunks.flatten⟩ :=
+    ⟨rfl, rfl, by simp, hne, by simp, hsize⟩
+  have := decode_sim reader_sim fuel _ _ hrel
+  cases h1 : decode Reader.src fuel ⟨size, [], chunks, false⟩ with
+  | none =>
+    cases h2 : decode streamSrc fuel ⟨size, chunks.flatten⟩ with
+    | none => trivial
+    | some q => rw [h1, h2] at this; obtain ⟨_, _⟩ := q; exact this
+  | some p =>
+    obtain ⟨v, r⟩ := p
+    cases h2 : decode streamSrc fuel ⟨size, chunks.flatten⟩ with
+    | none => rw [h1, h2] at this; exact this
+    | some q =>
+      obtain ⟨w, s⟩ := q
+      rw [h1, h2] at this
+      exact ⟨this.1, this.2.data⟩
+
+/-- **Round trip through any chunking.** Encode a well-formed value, append any continuation,
+cut the bytes into non-empty chunks any way you like: the buffered reader (buffer ≥ 32) decodes
+the value and leaves exactly the continuation. -/
+theorem decode_encode_chunked (size : Nat) (hsz : 32 ≤ size) (v : Resp) (h : wf v = true)
+    (hd : depth v ≤ maxArrayDepth) (rest : Bytes) (chunks : List Bytes) (hne : ∀ c ∈ chunks, c ≠ [])
+    (hcut : chunks.flatten = encode v ++ rest) :
+    ∃ r, decode Reader.src (maxArrayDepth + 1) ⟨size, [], chunks, false⟩ = some (v, r) ∧
+      r.win ++ r.chunks.flatten = rest := by
+  have hs := decode_encode_fuel size hsz v h (maxArrayDepth + 1) rest (by omega)
+  have hc := chunking_independent size (by omega) chunks hne (maxArrayDepth + 1)
+  rw [hcut, hs] at hc
+  cases h1 : decode Reader.src (maxArrayDepth + 1) ⟨size, [], chunks, false⟩ with
+  | none => rw [h1] at hc; exact hc.elim
+  | some p =>
+    obtain ⟨w, r⟩ := p
+    rw [h1] at hc
+    exact ⟨r, by rw [hc.1], hc.2.symm⟩
+
+/-- non-vacuity: a message cut inside the length, inside the CRLF and inside the payload -/
+example : ∃ r, decode Reader.src 33 ⟨32, [], [[36], [51, 13], [10, 97], [98, 99, 13], [10, 43]], false⟩
+    = some (.bulk (some [97, 98, 99]), r) ∧ r.win ++ r.chunks.flatten = [43] := ⟨_, rfl, rfl⟩
+
 /-! Non-vacuity: a 3-level nested array with null, empty and binary members. -/
 def sample : Resp :=
   .arr (some [.int (-9223372036854775808), .bulk none, .bulk (some []), .arr none, .arr (some []),
@@ -237,5 +292,7 @@ end SamVerif.Props.C10
 #print axioms SamVerif.Props.C10.decode_encode
 #print axioms SamVerif.Props.C10.reencode_canonical
 #print axioms SamVerif.Props.C10.decodeAll_encodeList
+#print axioms SamVerif.Props.C10.chunking_independent
+#print axioms SamVerif.Props.C10.decode_encode_chunked
 #print axioms SamVerif.Props.C10.inline_eq_array
 #print axioms SamVerif.Props.C10.constants_match_source
